@@ -132,8 +132,15 @@ int main(void) {
       /* exact A B U : B divides A */
       const char *A = vtok[1], *B = vtok[2], *U = vtok[3];
       run_modes(f_div, 1, A, B, U); putchar(' ');
-      run_modes(f_rem, 1, A, B, U); putchar(' ');
-      run_modes(f_divrem, 2, A, B, U);
+      /* rem / divrem document "main variable of A2 not above that of A1" (they assert it): 0 / B only through div */
+      PP a = pio_new(A), b = pio_new(B);
+      int below = lp_polynomial_cmp_type(a, b) < 0;
+      lp_polynomial_delete(a); lp_polynomial_delete(b);
+      if (below) { printf("- - -"); }
+      else {
+        run_modes(f_rem, 1, A, B, U); putchar(' ');
+        run_modes(f_divrem, 2, A, B, U);
+      }
     } else if (is_op("exactr") && vntok == 4) {
       /* exactr A B U : same main variable, A = Q0*B + R0 with deg R0 < deg B: division with remainder in Z[y][x] */
       const char *A = vtok[1], *B = vtok[2], *U = vtok[3];
